@@ -3,6 +3,7 @@ package main
 import (
 	"go/ast"
 	"go/token"
+	"strings"
 )
 
 // C13: `recv.name` denotes the METHOD name; an instance variable spelled like it (@name) is another identifier and is
@@ -29,7 +30,46 @@ func genStrategyFacts() {
 		}
 		return true
 	})
-	b := "namespace RubyTi.Gen\n\n/-- instanceMethodStrategy.getRequiredValues looks the name up as a method before it looks it up as an instance variable -/\n"
+	// C07: a call on a union receiver is checked per class; an error that survives the other declarations (overloads) of that
+	// class's method is returned: after the `range ….Overloads` retry there is a plain `if err != nil { return nil, err }`
+	tp := parseFile("eval/method_evaluator/type_process.go")
+	un := findFunc(tp, "", "checkAndPropagateArgsForUnionWithReturnT")
+	if un == nil {
+		refuse("checkAndPropagateArgsForUnionWithReturnT not found")
+	}
+	survives := false
+	ast.Inspect(un.Body, func(n ast.Node) bool {
+		rs, ok := n.(*ast.RangeStmt)
+		if !ok || exprString(rs.X) != "classNames" {
+			return true
+		}
+		sawRetry := false
+		for _, st := range rs.Body.List {
+			is, ok := st.(*ast.IfStmt)
+			if !ok {
+				continue
+			}
+			retry := false
+			ast.Inspect(is.Body, func(m ast.Node) bool {
+				if r, ok := m.(*ast.RangeStmt); ok && strings.HasSuffix(exprString(r.X), ".Overloads") {
+					retry = true
+				}
+				return true
+			})
+			if retry {
+				sawRetry = true
+				continue
+			}
+			if sawRetry && strings.ReplaceAll(exprString(is.Cond), " ", "") == "err!=nil" && len(is.Body.List) == 1 {
+				if r, ok := is.Body.List[0].(*ast.ReturnStmt); ok && len(r.Results) == 2 && exprString(r.Results[1]) == "err" {
+					survives = true
+				}
+			}
+		}
+		return false
+	})
+	b := "namespace RubyTi.Gen\n\n/-- checkAndPropagateArgsForUnionWithReturnT: an argument error that none of a class's declarations lifts is returned -/\n"
+	b += "def unionReceiverErrorSurvivesOverloads : Bool := " + leanBool(survives) + "\n\n/-- instanceMethodStrategy.getRequiredValues looks the name up as a method before it looks it up as an instance variable -/\n"
 	b += "def instanceLookupMethodFirst : Bool := " + leanBool(methodPos != token.NoPos && ivarPos != token.NoPos && methodPos < ivarPos) + "\n\nend RubyTi.Gen\n"
 	writeGen("StrategyFacts", b)
 }
